@@ -30,9 +30,11 @@ def main():
             return 2
         demo = os.path.join(d, 'demo.py')
         if os.path.exists(demo):
+            demo_dir = os.path.join(tmp, 'demo_dir')  # the script's own directory is first on sys.path: keep it free of static_frame
+            os.makedirs(demo_dir, exist_ok=True)
+            shutil.copy(demo, os.path.join(demo_dir, '_demo.py'))
             for label, root in (('with change', tmp), ('without change', '/repo')):
-                shutil.copy(demo, os.path.join(tmp, '_demo.py'))
-                r = subprocess.run(['/venv/bin/python', os.path.join(tmp, '_demo.py')], cwd=root, env=dict(os.environ, PYTHONPATH=root), stdout=subprocess.PIPE, stderr=subprocess.STDOUT, text=True)
+                r = subprocess.run(['/venv/bin/python', os.path.join(demo_dir, '_demo.py')], cwd=root, env=dict(os.environ, PYTHONPATH=root), stdout=subprocess.PIPE, stderr=subprocess.STDOUT, text=True)
                 print('demo %s: exit %d: %s' % (label, r.returncode, (r.stdout.strip().splitlines() or [''])[-1][:200]))
         for pid in pids:
             for sd in seeds:
